@@ -7,7 +7,7 @@ TIE = "corr:pe"
 TIE_THEOREM = "Relic.Props.C03 (models Relic.Model.PE vs lib/authenticode)"
 UNPROVED = ['Relic.Props.C03.ps_text_before_block_preserved_full_orig (code before the repair of F-ps-eol, 68f97c1): false, witness ps_mixed_eol_loses_text_orig; for the repaired code the statement holds at full strength (ps_text_before_block_preserved; stronger: ps_cut_is_line_break - what is cut off is nothing or exactly CR LF; refusals ps_bare_lf_before_block_refused / ps_block_at_start_refused, clean: no patch)', 'Relic.Props.C03.vsix_payload_preserved_full (every part that is not signature machinery survives): false, witness vsix_foreign_parts_dropped; proved: vsix_payload_preserved / vsix_payload_sublist_eq / vsix_dropped_iff relative to keepFile', 'zip_rewrite_preserves_members_full (view of the output through Relic.Spec.Zip = added ++ kept): statement only; proved at layout level (zip_rewrite_preserves_members)']
 IMPL_PARALLEL = 16
-install(globals(), "C03", ["pe", "e2e", "cab", "ps", "jar", "ziprw", "xsig", "deb", "appx", "pgp", "macho", "vsix", "xap", "msisign", "dmg", "cosign", "xar", "c09ops"])
+install(globals(), "C03", ["pe", "e2e", "cab", "ps", "jar", "ziprw", "xsig", "deb", "appx", "pgp", "macho", "vsix", "xap", "msisign", "dmg", "cosign", "xar", "c09ops", "rpm"])
 RULE = RULE + (" || MSI containers: the hist / wr / wb / adds / atab ops of C18 (every pre-existing stream and storage identical in name, "
                "metadata and bytes after InsertMSISignature / AddFile / DeleteFile histories; writer tables = model tables; written file bytes = "
                "the byte-level model's prediction, for which streams_preserved is proved)")
@@ -37,3 +37,5 @@ def run(ctx):
         else:
             cov = c2
     return cov, findings, known
+import rpm as _rpm  # RPM signer (checklib/models/rpm.py; lean/Relic/Props/C03_Rpm.lean)
+UNPROVED = list(UNPROVED) + _rpm.UNPROVED["C03"]
